@@ -135,10 +135,19 @@ def step (d : D) (op impl : String) : D × DrvOut :=
     let i? : Option (Option Bytes) := if ip == "e" then some none else (hx ip).map some
     match c?, i? with
     | some c, some i =>
-      (d, { model := match unmarshalIPNet c i with
+      let implU : Option Unm := match words impl with
+        | ["ok", n] => (parseNet n).map Unm.ok
+        | ["err"] => some .err
+        | _ => none
+      let spec := match implU with
+        | some u => (match specIPNet c i u with
+          | none => "ok"
+          | some m => "FAIL " ++ m)
+        | none => "FAIL unparsable implementation answer: " ++ impl
+      (d, { model := (match unmarshalIPNet c i with
         | .ok n => "ok " ++ fmtNet n
         | .err => "err"
-        | .panic => "panic" })
+        | .panic => "panic"), spec })
     | _, _ => (d, { model := "bad-op" })
   | _ => (d, { model := "bad-op" })
 
